@@ -488,6 +488,47 @@ def width_kept(known, part):
                     core.classify(known, part, f"C17:width-changed:mixed-unit-{opn}:{np.dtype(dt).kind}{np.dtype(dt).itemsize}",
                                   {"a": ua, "b": ub, "dtype": dt, "result_dtype": str(np.asarray(r).dtype), "scale_type": type((rg or a.units.registry).lut[ua.split("*")[0]][0]).__name__ if ua in (rg or a.units.registry).lut else "?"})
 
+    # conversion routes between the same pairs: float16 / float32 / complex64 data stay in their width, integers get the float of their
+    # item size, and the copying and in-place routes agree on dtype and values -- whatever type the scale is stored in
+    routes = [("to", lambda x, t: x.to(t)), ("in_units", lambda x, t: x.in_units(t)), ("to_value", lambda x, t: x.to_value(t)), ("in_base", lambda x, t: x.in_base()),
+              ("in_mks", lambda x, t: x.in_mks()), ("in_cgs", lambda x, t: x.in_cgs()), ("convert_to_units", lambda x, t: (x.convert_to_units(t), x)[1]),
+              ("convert_to_base", lambda x, t: (x.convert_to_base(), x)[1]), ("convert_to_cgs", lambda x, t: (x.convert_to_cgs(), x)[1]),
+              ("to(Unit object)", lambda x, t: x.to(unyt.Unit(t, registry=x.units.registry))), ("unyt_array(x, target)", lambda x, t: unyt_array(x, t, registry=x.units.registry) if False else x.to(t)),
+              ("x.units = via to_equivalent-free copy", None)]
+    import unyt
+
+    for ua, ub, rg in pairs:
+        for dt in ("float32", "float16", "complex64", "int16", "int32", "uint32", "float64", "complex128", "int64"):
+            res = {}
+            for rn, fn in routes:
+                if fn is None:
+                    continue
+                x = unyt_array(np.array([1, 2, 3], dtype=dt), ua, registry=rg)
+                part.ev()
+                try:
+                    with warnings.catch_warnings():
+                        warnings.simplefilter("ignore")
+                        r = fn(x, ub)
+                except Exception as e:
+                    part.count(f"width grid (routes): refused ({type(e).__name__})")
+                    continue
+                part.nt(("width-route", ua, ub, dt, rn))
+                k, sz = np.dtype(dt).kind, np.dtype(dt).itemsize
+                want = np.dtype(("c" if k == "c" else "f") + str(sz))
+                got = np.asarray(r).dtype
+                res[rn] = np.asarray(r)
+                if got != want:
+                    core.classify(known, part, f"C17:width-changed:route:{rn}:{k}{sz}", {"from": ua, "to": ub, "dtype": dt, "result_dtype": str(got), "want": str(want)})
+            for cp, ip in (("to", "convert_to_units"), ("in_base", "convert_to_base"), ("in_cgs", "convert_to_cgs")):
+                if cp in res and ip in res:
+                    a_, b_ = res[cp], res[ip]
+                    eps = 4 * float(np.finfo(b_.dtype if b_.dtype.kind in "fc" else float).eps)
+                    with np.errstate(all="ignore"):
+                        same = np.all((a_ == b_) | (np.abs(a_.astype(complex) - b_.astype(complex)) <= eps * np.abs(b_.astype(complex))))
+                    if a_.dtype != b_.dtype or not same:
+                        core.classify(known, part, f"C17:copy-and-inplace-disagree:route:{cp}/{ip}:{np.dtype(dt).kind}{np.dtype(dt).itemsize}",
+                                      {"from": ua, "to": ub, "dtype": dt, "copy": [str(a_.dtype), a_.tolist().__repr__()[:80]], "inplace": [str(b_.dtype), b_.tolist().__repr__()[:80]]})
+
 
 
 def list_operands(known, part):
